@@ -273,7 +273,7 @@ def build_drv(san=None):
 
 # ------------------------------------------------------------------ running cases
 
-def run_lines(exe, lines, timeout=1800, env=None, shards=1):
+def run_lines(exe, lines, timeout=1800, env=None, shards=1, memlimit_kb=12000000):
     """feed lines to a line-protocol program, return list of output lines (same length)"""
     if not lines:
         return []
@@ -282,7 +282,7 @@ def run_lines(exe, lines, timeout=1800, env=None, shards=1):
         chunks = [lines[i:i + n] for i in range(0, len(lines), n)]
         procs = []
         for c in chunks:
-            p = subprocess.Popen(["bash", "-c", "ulimit -s unlimited 2>/dev/null; exec " + exe], stdin=subprocess.PIPE,
+            p = subprocess.Popen(["bash", "-c", "ulimit -s unlimited 2>/dev/null; " + ("ulimit -v %d 2>/dev/null; " % memlimit_kb if memlimit_kb and "-asan" not in exe and "-tsan" not in exe else "") + "exec " + exe], stdin=subprocess.PIPE,
                                  stdout=subprocess.PIPE, stderr=subprocess.PIPE, env=dict(os.environ, **(env or {})))
             procs.append((p, c))
         import threading
@@ -305,7 +305,7 @@ def run_lines(exe, lines, timeout=1800, env=None, shards=1):
                 ls = ls + ["?crashed rc=%s %s" % (rc, err.decode("latin-1")[-300:].replace("\n", " "))] * (len(c) - len(ls))
             outl.extend(ls)
         return outl
-    p = subprocess.run(["bash", "-c", "ulimit -s unlimited 2>/dev/null; exec " + exe], input=("\n".join(lines) + "\n").encode(),
+    p = subprocess.run(["bash", "-c", "ulimit -s unlimited 2>/dev/null; " + ("ulimit -v %d 2>/dev/null; " % memlimit_kb if memlimit_kb and "-asan" not in exe and "-tsan" not in exe else "") + "exec " + exe], input=("\n".join(lines) + "\n").encode(),
                        stdout=subprocess.PIPE, stderr=subprocess.PIPE, timeout=timeout, env=dict(os.environ, **(env or {})))
     ls = p.stdout.decode("latin-1").split("\n")
     if ls and ls[-1] == "":
@@ -388,6 +388,10 @@ class Check:
     def finish(self, extra_assumptions=()):
         os.makedirs(os.path.join(VERIF, "evidence"), exist_ok=True)
         rdir = os.path.join(VERIF, "replays", self.pid)
+        if os.path.isdir(rdir):
+            for fn in os.listdir(rdir):
+                if fn.startswith("%s-%d-" % (self.tier, self.seed)):
+                    os.unlink(os.path.join(rdir, fn))
         lines = []
         for k in self.known_hits:
             lines.append("KNOWN-FINDING: property=%s %s [%s]" % (self.pid, k["what"], k["id"]))
